@@ -168,7 +168,7 @@ def _rand_path(rng):
 
 def gen_cases(rng, tier):
     _fx()
-    n = {"quick": 4000, "thorough": 100000, "search": 6000}[tier]
+    n = {"quick": 4000, "thorough": 60000, "search": 6000}[tier]
     for _ in range(n):
         root = ROOTS[0] if rng.random() < 0.45 else rng.choice(ROOTS)
         dflt = rng.choice(["index.html", "index.html", None, "b.txt", "index.dir"])
